@@ -31,6 +31,9 @@ struct wrap_state {
   int (*stat_hook)(const char *, struct stat *);
   off_t (*lseek_hook)(int, off_t, int);
   char *(*realpath_hook)(const char *, char *);
+  /* called at the start of every interposed call with its name (open with O_CREAT: "open-creat"); a non-zero
+     answer is the errno the call fails with, without being made (main driver: nothing is really done as root) */
+  int (*gate_hook)(const char *name, const char *path);
   int (*close_hook)(int);
   const char *open_from; /* redirect open(open_from) to open_to */
   const char *open_to;
